@@ -5,6 +5,7 @@ from .. import astutil as A
 from .. import paths as P
 from ..effects import Effects
 from ..selftest.runner import M, TW, V
+from . import common as K
 
 PROPERTY = "C12"
 EXPLANATION = (
@@ -29,7 +30,8 @@ EXPLANATION = (
     "cannot be rescaled inside its loop over the group; (j) WHO MAY WRITE -- in the value classes histogram and graph only the "
     "constructor and the documented modifiers (histogram.fill / scale / set_nevents, graph.scale) store through self, and only "
     "the fields tabled for them: a query (get_nevents, __eq__, rows, ...) that leaves something behind in the object is a memo "
-    "that fill(), which changes cells in place, cannot invalidate.")
+    "that fill(), which changes cells in place, cannot invalidate; (k) the six places that decide whether edges are multidimensional "
+    "ask the same test on edges[0] as the histogram constructor (init_bins is a tabled exception with its recorded text).")
 RULES = {
     "C12-a": "GUARD: division by a scale/count is dominated by a zero test that raises LenaValueError",
     "C12-b": "PURE: histogram.add leaves its operands alone and returns a new histogram over copied edges",
@@ -43,6 +45,8 @@ RULES = {
              "variable (low = edges[axis][i], high = edges[axis][i + 1]); the left/right/middle coordinate takes the matching member",
     "C12-j": "WHO MAY WRITE: only __init__ and the tabled modifiers of histogram/graph store through self, and only their tabled fields "
              "(queries keep no memo: get_nevents after a further fill must count that fill)",
+    "C12-k": "AGREE on dimension: the histogram constructor, the edge checks and the cell iterators decide whether edges are "
+             "multidimensional by the same test on edges[0] (one tabled exception)",
     "C12-i": "PASS-THROUGH: a recursive call of a numeric helper hands every unchanged parameter on in its own position (rel_tol as "
              "rel_tol, abs_tol as abs_tol); the tolerated per-item failures of scale_to are handled inside the loop over the group",
 }
@@ -790,6 +794,8 @@ def check_who_may_write(ctx):
 
 
 def check(ctx):
+    K.check_dimension_predicates(ctx, "C12-k", "iter_bins_with_edges (hence hist_to_graph and ToCSV) yields one bogus cell holding whole axes "
+                                 "where iter_bins and iter_cells yield every cell")
     check_who_may_write(ctx)
     check_pass_through(ctx)
     check_pairing(ctx)
@@ -803,6 +809,8 @@ def check(ctx):
 
 
 VARIANTS = [
+    M("revert-fix-iter-bins-with-edges-dim", "lena/structures/hist_functions.py", "    if not hasattr(edges[0], '__iter__'):\n        edges = [edges]", "    if not isinstance(edges[0], list):\n        edges = [edges]", ["C12-k"]),
+    M("unify-1-md-lists-only", "lena/structures/hist_functions.py", "    if hasattr(edges[0], '__iter__'):\n    # if isinstance(edges[0], (list, tuple)):", "    if isinstance(edges[0], list):", ["C12-k"]),
     M("get-nevents-memo", "lena/structures/histogram.py", "        bin_contents = (val[1] for val in hf.iter_bins(self.bins))\n        n_in_range = sum(bin_contents)\n",
       "        cached = getattr(self, \"_nevents\", None)\n        if cached is not None and cached[0] is self.bins:\n            n_in_range = cached[1]\n        else:\n            bin_contents = (val[1] for val in hf.iter_bins(self.bins))\n            n_in_range = sum(bin_contents)\n            self._nevents = (self.bins, n_in_range)\n", ["C12-j"]),
     M("graph-rows-cached", "lena/structures/graph.py", "    def _parse_error_names(self, field_names):", "    def _cached_len(self):\n        self.__dict__.setdefault(\"_len\", len(self.coords[0]))\n        return self._len\n\n    def _parse_error_names(self, field_names):", ["C12-j"]),
